@@ -421,14 +421,16 @@ pub trait Term: std::fmt::Debug {
                     let dt1 = self.datatype().unwrap();
                     let dt2 = other.datatype().unwrap();
                     Ord::cmp(&dt1, &dt2)
+                        // an (ill-typed) rdf:langString literal without a language tag
+                        // comes before all the language-tagged ones
+                        // (NB: this must be decided *before* comparing the lexical forms,
+                        // as language-tagged literals are ordered by their tag first)
+                        .then_with(|| Ord::cmp(&tag1.is_some(), &tag2.is_some()))
                         .then_with(|| {
                             self.lexical_form()
                                 .unwrap()
                                 .cmp(&other.lexical_form().unwrap())
                         })
-                        // an (ill-typed) rdf:langString literal without a language tag
-                        // must not compare equal to a language-tagged one (Term::eq tells them apart)
-                        .then_with(|| Ord::cmp(&tag1.is_some(), &tag2.is_some()))
                 }
             }
             TermKind::Triple => {
